@@ -189,7 +189,66 @@ def orders_for(ctx):
     return o
 
 
+def far_apart_fields(ctx, rep):
+    """two boxes of 64 x 64 x 32 cells with 34 fields in ONE binary file; the selection [0, 32] spans 33 MiB per box"""
+    from amr_kitchen import PlotfileCooker
+    levels = [[[[0, 0, 0], [63, 63, 31]], [[0, 0, 32], [63, 63, 63]]]]
+    spec = {"ndims": 3, "fields": [f"f{k}" for k in range(34)], "time": 0.5, "geo_low": [0.0, 0.0, 0.0], "dx0": [0.25, 0.25, 0.25],
+            "grid0": [64, 64, 64], "block": 32, "levels": levels, "layout": [[[0, 0], [0, 1]]],
+            "data": {"mode": "smallint", "seed": 77}, "header_style": "amrex", "step": 1}
+    path = ctx.newdir("c15big_")
+    truth = plotgen.materialize(spec, path)
+    rep.count("selection-spanning-33MiB-per-box")
+    for fsel in ([0, 32], [1, 33]):
+        case = {"far_apart_fields": fsel}
+        rep.case({"far": fsel}, nontrivial=True)
+        try:
+            with alarm(300), quiet(), pools.controlled():
+                got = sorted(key(a) for a in PlotfileCooker(path)[fsel][0])
+        except Exception as e:
+            rep.fail(f"iteration over a level with the field selection {fsel} of 34 raised {type(e).__name__}: {e}", case); continue
+        want = sorted(key(truth[(0, b)][..., fsel]) for b in range(2))
+        if got != want:
+            rep.fail(f"iteration with the field selection {fsel} of 34 fields yielded {len(got)} boxes that are not the 2 stored boxes", case)
+        else:
+            rep.agree()
+    import shutil
+    shutil.rmtree(path, ignore_errors=True)
+
+
+def directories_session(ctx, rep, seed):
+    from amr_kitchen import PlotfileCooker
+    from .. import sessions
+    dirs = sessions.two_directories(ctx, seed, "c15dirs_", ndims=3, nf=2, data="bits", B=2, layout="scatter")
+    case = {"directories_session": seed}
+    rep.case({"dirsession": seed}, nontrivial=True); rep.count("relative-names-from-two-working-directories-real-pool")
+
+    def action(k, name, spec, truth):
+        pck = PlotfileCooker(name)
+        for lv in range(len(spec["levels"])):
+            nb = len(spec["levels"][lv])
+            want = sorted(key(truth[(lv, b)][..., 1]) for b in range(nb))
+            try:
+                got = sorted(key(a) for a in pck[1][lv])
+                sel = list(range(nb))[::-1]
+                got2 = [key(a) for a in pck[1][lv].iter(sel)]
+            except Exception as e:
+                return f"iteration over level {lv} of the plotfile opened as {name!r} raised {type(e).__name__}: {e}"
+            if got != want:
+                return f"iteration over level {lv} of the plotfile opened as {name!r} does not yield the boxes stored in THIS directory"
+            if got2 != [key(truth[(lv, b)][..., 1]) for b in sel]:
+                return f"the on-demand iterator over level {lv} of {name!r} does not yield the boxes stored in THIS directory"
+        return None
+    bad = sessions.visit(dirs, action)
+    if bad:
+        rep.fail(bad, case)
+    else:
+        rep.agree()
+
+
 def run(ctx, rep, model=True):
+    directories_session(ctx, rep, ctx.rng.randrange(1 << 30))
+    far_apart_fields(ctx, rep)
     n = 12 if ctx.quick else 50
     for i in range(n):
         spec = plotgen.random_spec(ctx.rng, ndims=[3, 2][i % 2], nf=[3, 2, 4, 1, 7, 5][i % 6], data="bits", B=2,
@@ -211,6 +270,10 @@ def run(ctx, rep, model=True):
 
 def replay(ctx, rep, obj, model=True):
     c = obj["case"]
+    if "directories_session" in c:
+        directories_session(ctx, rep, c["directories_session"]); return
+    if "far_apart_fields" in c:
+        far_apart_fields(ctx, rep); return
     if c.get("iter") or "limited" in c:
         run_spec(ctx, rep, c["spec"], model, orders_for(ctx))
     else:
